@@ -309,6 +309,9 @@ def strip_kind(e):
 
 # ---- kind x mode matrix on the real implementation ------------------------------------------------------------------
 OPERANDS = [
+    # redundant parentheses inside operands of | chains (removed / kept by the conversion: what stands to their right moves)
+    ('expr', '(-(3)) | {**r}'), ('expr', '-(3) | a.b'), ('expr', '-(3) - (2j) | x.y'), ('expr', '[(-(1)), e] | (f.g) | -(2)'), ('pattern', '(-3) | a | b'), ('pattern', '(a) | b | c'),
+    ('pattern', '((a.b)) | c | [d]'), ('pattern', '(\n a) | b | c'), ('expr', '(a) | (b) | (c)'), ('expr', '(("s")) | (1) | (-(2.5))'), ('expr', '[-(1) + (2j), (-(3)), {**r}]'),
     ('expr', 'a'), ('expr', 'a, b'), ('expr', '[a, b.c, 1]'), ('expr', '{a, b}'), ('expr', 'f(a, k=b)'), ('expr', '{"k": v, **r}'), ('expr', 'a | b | c'), ('expr', '(a,\n b,  # c\n c)'),
     ('expr', 'x.y.z'), ('expr', '-1'), ('expr', '"s"'), ('expr', '*st'), ('expr', 'a if b else c'), ('expr', 'lambda: x'), ('expr', 'ü + é'), ('expr', '(yield)'), ('expr', 'a := b'),
     ('stmt', 'x'), ('stmt', 'x = 1'), ('stmt', 'a, b'), ('exec', 'a\nb'), ('exec', 'a'), ('exec', ''), ('Tuple', 'a, b'), ('Tuple', '()'), ('List', '[]'), ('List', '[a, *b]'),
